@@ -206,7 +206,8 @@ def r2_r6_parser_printer(ctx) -> None:
                     "the printer does not double a backslash that the parser will read as escape character: the parts ['a\\\\', WILDCARD] print as a\\* which re-parses as the literal 'a*', and 'a\\\\\\\\b' (two backslashes) loses one — "
                     "str(value)/to_plain() is not a right inverse of the parser", loc)
     else:
-        r.violation("C05.R2", tp.qual, f"backslash prints as {table['\\\\']!r}", "a backslash of a string part must print so that it parses back to one backslash", loc)
+        bs_out = table["\\"]
+        r.violation("C05.R2", tp.qual, f"backslash prints as {bs_out!r}", "a backslash of a string part must print so that it parses back to one backslash", loc)
     r.floor("C05.R6", 3)
     r.floor("C05.R2", 1)
 
